@@ -437,7 +437,10 @@ class World:
                 if basin in ("file", "mapped"):
                     tname = self.newname("t")
                     mt = n if basin == "file" else pr.choice([2, 5, n + 3])
-                    tm = gen.gen_model(seeds.H(ds_, "target"), mt, scalars=["userdef2", "pos_y", "area_ratio"],
+                    # (a basin feature that the referrer could also compute from its own data would have to equal that
+                    #  computation in a consistent measurement: area_ratio only where area_cvx/area_msd are not both stored)
+                    third = "userdef4" if {"area_cvx", "area_msd"} <= set(m.feats) else "area_ratio"
+                    tm = gen.gen_model(seeds.H(ds_, "target"), mt, scalars=["userdef2", "pos_y", third],
                                        image=pr.random() < 0.4, mask=False, n_logs=0)
                     gen.write_model(tm, self.dir / tname, compression="zstd")
                 with RTDCWriter(self.dir / name, mode="append") as hw:
